@@ -6,6 +6,7 @@ package h
 import (
 	"fmt"
 	"math/rand"
+	"runtime"
 	"time"
 
 	"google.golang.org/grpc/codes"
@@ -15,7 +16,7 @@ import (
 )
 
 var srvDevKinds = []string{
-	"none", "drop-hdr", "dup-hdr", "hdr-after-msg", "drop-msg-first", "drop-msg-cont", "dup-msg", "envelope-inside", "data-plus1", "size-plus1", "size-minus1",
+	"none", "drop-hdr", "dup-hdr", "hdr-after-msg", "drop-msg-first", "drop-msg-cont", "dup-msg", "envelope-inside", "data-plus1", "size-plus1", "size-minus1", "size-64MiB", "size-max",
 	"dup-close", "frame-after-close", "settings-on-stream", "empty-frame", "retarget-unknown-id", "retarget-negative-id", "retarget-finished-id",
 	"win-absurd", "win-zero", "overrun", "no-response", "two-responses", "close-error", "close-first", "big-chunk",
 }
@@ -119,6 +120,16 @@ func famRawSrv(w *World, c *Case, rng *rand.Rand) {
 		frames[1].Frame.(*tunnelpb.ServerToClient_ResponseMessage).ResponseMessage.Size--
 		expect = "fail"
 		sentComplete = map[int]bool{}
+	case "size-64MiB", "size-max":
+		// the announced size is peer-controlled and not bounded by the window: the endpoint must not
+		// allocate according to it
+		if kind == "size-max" {
+			frames[1].Frame.(*tunnelpb.ServerToClient_ResponseMessage).ResponseMessage.Size = 0xffffffff
+		} else {
+			frames[1].Frame.(*tunnelpb.ServerToClient_ResponseMessage).ResponseMessage.Size = 64 << 20
+		}
+		expect = "noresp"
+		sentComplete = map[int]bool{}
 	case "dup-close":
 		frames = append(frames, sClose(0, int32(codes.Internal), "second close", nil))
 	case "frame-after-close":
@@ -186,6 +197,9 @@ func famRawSrv(w *World, c *Case, rng *rand.Rand) {
 			f.StreamId = 1000001 // replaced below once fin's id is known
 		}
 	}
+	runtime.GC()
+	var m0, m1 runtime.MemStats
+	runtime.ReadMemStats(&m0)
 	fin := &RPCSpec{ID: "fin", Method: "Unary", Client: []Op{{K: "invoke", N: 7}}}
 	w.Env.StartRPC(w.RootCtx, ch, fin)
 	w.Advance(time.Millisecond)
@@ -218,6 +232,10 @@ func famRawSrv(w *World, c *Case, rng *rand.Rand) {
 	w.Env.Signal("late")
 	w.Advance(time.Second)
 	w.Stat("rawsrv_conversations", 1)
+	runtime.ReadMemStats(&m1)
+	if alloc := int64(m1.TotalAlloc) - int64(m0.TotalAlloc); alloc > 48<<20 && kind != "overrun" {
+		w.Violate("C09", "endpoint-bloated-by-peer-input", "raw server deviation %s/%s: the caller's endpoint allocated %d MiB while processing responses carrying less than 200 kB", kind, shape, alloc>>20)
+	}
 
 	views := buildViews(w.Env)
 	term := func(id string) (*OpRec, []OpRec) {
